@@ -164,7 +164,7 @@ impl Monitor for C02 {
                                     let lhs = big(minted) * &d0 / big(s0.max(1));
                                     let grow = if d1 > d0 { &d1 - &d0 } else { BigUint::zero() };
                                     let excess = if lhs > grow { (&lhs - &grow) / &r } else { BigUint::zero() };
-                                    if excess <= big(32) {
+                                    if excess <= big(64) + &d0 / &r / big(10).pow(18) {
                                         v.finding = Some("S8-mint-d-accuracy".into());
                                         v.truncate = false;
                                     }
